@@ -321,6 +321,9 @@ Qed.
 Definition frame_fits (client : gostr) (r : creq) : bool :=
   10 + zlen client + zlen (creq_body r) <? ZM31.
 
+Lemma frame_fits_def client r : frame_fits client r = (10 + zlen client + zlen (creq_body r) <? ZM31).
+Proof. reflexivity. Qed.
+
 Lemma zlen_frame_rest corr client r : zlen (frame_rest corr client r) = 10 + zlen client + zlen (creq_body r).
 Proof.
   unfold frame_rest. rewrite !zlen_app, !zlen_w_int16, zlen_w_int32, zlen_w_string. unfold sizeof_string. lia.
